@@ -49,6 +49,14 @@ def Coords.points : Coords → List (List Rat)
   | .separated a => tensorPoints a
   | .unstructured c => pointsOfCols (c.headD []).length c
 
+/-! ## The affine maps on single points (specification side) -/
+
+/-- `p ↦ (p_i · f_i)_i` -/
+def scalePt (f p : List Rat) : List Rat := List.zipWith (fun fi x => x * fi) f p
+
+/-- `p ↦ (p_i + b_i)_i` -/
+def shiftPt (b p : List Rat) : List Rat := List.zipWith (fun bi x => x + bi) b p
+
 /-! ## In-place coordinate arithmetic (`__imul__`, `__iadd__`, `reverse`) -/
 
 /-- apply one function per axis to the coordinate values -/
@@ -203,6 +211,9 @@ def Grid.reverse (g : Grid) : Grid := { g with coords := g.coords.reverse, weigh
 def Grid.reverseOld (g : Grid) : Grid := { g with coords := g.coords.reverse }
 
 def dot (r p : List Rat) : Rat := ratSum (List.zipWith (· * ·) r p)
+
+/-- matrix times point -/
+def linPt (M : List (List Rat)) (p : List Rat) : List Rat := M.map fun r => dot r p
 
 /-- `np.einsum('ik,kn->in', R, np.array(self.coords))` followed by `UnstructuredCoords(coords)` -/
 def Coords.linmap (M : List (List Rat)) (c : Coords) : Coords :=
